@@ -138,6 +138,17 @@ def full_cases(draw):
     return {"programs": progs, "live": draw(st.sampled_from([True, True, False]))}
 
 
+def fixed_full_cases():
+    """every neighbour pair of three fixed programs, A -> B and B -> A through one live evaluator, fully predicted"""
+    from .. import neighbours
+
+    for prog, envs in neighbours.fixed_programs():
+        inputs = [M.enc_inputs(e) for e in envs]
+        for what, a, b in neighbours.neighbours(prog, None, 99):
+            for x, y in ((a, b), (b, a)):
+                yield {"programs": [{"prog": x, "inputs": inputs, "noise": None}, {"prog": y, "inputs": inputs, "noise": None}], "live": True}
+
+
 def _expected(prog, env):
     """the result predicted from the documentation alone: route (reference interpreter), position (published scheme), slice"""
     from .. import refinterp
@@ -252,6 +263,10 @@ def run(ctx, rec):
     runner.hyp_run(ctx, rec, "programs", cases(), judge, ctx.n(400, 2500))
     if rec.violations:
         return
+    if ctx.shard == 0:
+        runner.direct_run(ctx, rec, "all-neighbours-of-fixed-programs", fixed_full_cases(), judge_full)
+        if rec.violations:
+            return
     runner.hyp_run(ctx, rec, "full-programs", full_cases(), judge_full, ctx.n(150, 1200))
     if rec.violations:
         return
